@@ -167,6 +167,8 @@ func checkC15(c *Ctx, r *Report, tier string) {
 	r.Rule("C15.R5", "head/tail split is consistent with the vector width: with W = floats per widest load through a data pointer, every `and reg, -M` rounding the length has M = W, and every `not reg; or reg, K` (the complement of that rounding, used to count the scalar tail) has K = W-1", 6)
 	r.Rule("C15.R6", "non-negative: every Space.Distance result is, by sign analysis of the Go wrappers, a sum of squares / absolute values, a square root, or passed through Abs/Max(0,·) — never the raw result of a floating-point subtraction such as 1 - cos", 3)
 	distancesNonNegative(c, r, "C15.R6")
+	r.Rule("C15.R7", "each Space implementation dispatches to the kernels of one instruction set only", 2)
+	implUsesOneInstructionSet(c, r, "C15.R7")
 	r.Rule("C15.R4", "wrapper contract (Go SSA): the length argument is len of the first slice parameter, the data arguments are &p0[0] and &p1[0] in that order, result arguments are addresses of fresh locals; the dispatch wrappers pass (a, b) through unchanged", 12)
 	// ---- R4 first (pure SSA) ----
 	kernels := map[string][]string{} // pkg rel -> stub names
